@@ -136,18 +136,15 @@ def float_extremes(ctx, chk, tier):
     for every combination of small hard/easy counts (bounded grid); otherwise the extreme special cases do not trigger."""
     from ..terms import App
     from ..spec import POS, NEG, EP, EN, returns
-    from .thr import TAR, R, explore_threshold, _cache
+    from .thr import TAR, R, explore_threshold
     HPa, HNa = App("len", (POS,)), App("len", (NEG,))
     hs = (1, 2, 3, 5, 12) if tier != "thorough" else (1, 2, 3, 4, 5, 7, 12, 33)
-    es = (0, 1, 2, 3, 5, 7, 22, 40) if tier != "thorough" else tuple(range(0, 45))
+    es = (0, 1, 2, 3, 5, 7, 22, 40) if tier != "thorough" else tuple(range(0, 24)) + (40, 41)
     ctx.ev.raw_float = True
     try:
         for metric in METRICS:
             q = SCORES + ".threshold_at_" + metric
-            key = (id(ctx), metric, "pos", "pos", "linear", SCORES, TAR)
-            _cache.pop(key, None)
             outs = [o for o in returns(explore_threshold(ctx, chk, metric, "pos", "pos", "linear", stub=TAR)) if o.captured]
-            _cache.pop(key, None)
             if not outs:
                 chk.unknown("R03.3", "%s: helper call not found" % metric)
                 continue
